@@ -15,8 +15,16 @@ def pAcc : String → Option Acc
   | "-" => some .none | "R" => some .r | "W" => some .w | "RW" => some .rw | _ => none
 def pLT : String → Option LT
   | "-" => some .none | "S" => some .shared | "R" => some .r | "W" => some .w | "RW" => some .rw | _ => none
+/-- a record number: `n` or `n/d` (rounded half-to-even, for LOCK/UNLOCK bounds and GET/PUT alike) -/
+def pRec (s : String) : Option Nat :=
+  match s.splitOn "/" with
+  | [n] => n.toNat?
+  | [n, d] => do
+    let n ← n.toNat?; let d ← d.toNat?
+    if d = 0 then none else pure (roundHalfEven n d)
+  | _ => none
 def pOptNat (s : String) : Option (Option Nat) :=
-  if s == "-" then some none else s.toNat?.map some
+  if s == "-" then some none else (pRec s).map some
 def pRng (s e : String) : Option Rng :=
   if s == "-" && e == "-" then some .whole else
   match s.toNat?, e.toNat? with
